@@ -363,7 +363,29 @@ pub fn run_obs(args: &[String]) -> i32 {
                 }
             }
         }
-        w.put(&json!({"id": "__history__", "vectors": vectors.len(), "rejected_inputs_fed": rejected, "changed": changed, "failed_encodes": failed_encodes, "changed_enc": changed_enc}));
+        // ... nor on what other threads decode at the same time: eight threads decode a 100-level term (and encode it again) at once
+        let conc_failures = {
+            let mut b100 = vec![131u8];
+            for _ in 0..100 { b100.extend_from_slice(&[104, 1]); }
+            b100.push(106);
+            let start = std::sync::Arc::new(std::sync::Barrier::new(8));
+            let hs: Vec<_> = (0..8).map(|_| {
+                let (b, st) = (b100.clone(), start.clone());
+                std::thread::spawn(move || {
+                    st.wait();
+                    let mut bad = 0u64;
+                    for _ in 0..300 {
+                        let ok = catch(|| erltf::decode(&b).ok().and_then(|t| erltf::encode(&t).ok()) == Some(b.clone())).unwrap_or(false);
+                        let okb = catch(|| erltf::decode_borrowed(&b).is_ok()).unwrap_or(false);
+                        if !ok || !okb { bad += 1; }
+                    }
+                    bad
+                })
+            }).collect();
+            hs.into_iter().map(|h| h.join().unwrap_or(300)).sum::<u64>()
+        };
+        w.put(&json!({"id": "__history__", "vectors": vectors.len(), "rejected_inputs_fed": rejected, "changed": changed, "failed_encodes": failed_encodes, "changed_enc": changed_enc,
+                      "concurrent_failures": conc_failures}));
     }
     w.finish();
     0
